@@ -5,6 +5,7 @@
        symtab    -ldflags=-s=false: pclntab and .symtab readable
        stripped  -ldflags='-s -w': pclntab readable, no .symtab
        pie       -buildmode=pie: the section goom looks for is not there, the table load fails
+       piestripped  -buildmode=pie -ldflags='-s -w': neither the section nor the ELF symbols
    MECHANISM (symbols.go / unexports2.go): loadSymbolTable once (sticky error); initAlignmentFunc computes the
    function slide from an anchor function and the variable slide from an anchor variable (returns early, leaving
    both at 0, if the anchor function is missing; leaves the variable slide at 0 if the anchor variable is
@@ -13,13 +14,14 @@
    symbol's address - for absent names or unreadable tables. *)
 EXTENDS Integers, Sequences, TLC
 
-Modes == {"default", "symtab", "stripped", "pie"}
+Modes == {"default", "symtab", "stripped", "pie", "piestripped"}
+Pie(m) == m \in {"pie", "piestripped"}
 Kinds == {"func", "var"}
 NameClasses == {"present", "absent"}
 
-FuncTable(m) == m # "pie"                       \* pclntab readable
+FuncTable(m) == ~Pie(m)                        \* pclntab readable
 VarTable(m) == m = "symtab"                     \* ELF symbols readable (and the load as a whole succeeded)
-Slide(m) == IF m = "pie" THEN 4096 ELSE 0       \* run-time minus file address
+Slide(m) == IF Pie(m) THEN 4096 ELSE 0       \* run-time minus file address
 
 \* mechanism
 Loaded(m) == FuncTable(m)
@@ -44,7 +46,8 @@ Outcome(e) == IF ~e.found THEN "error" ELSE IF e.delta = 0 THEN "exact" ELSE "wr
 \* the record carries what the binary really contains (functab: a section named .gopclntab exists; vartab: ELF
 \* symbols exist) - `go test -c` without flags keeps the ELF symbols, plain `go test` does not
 ReqFacts(e) == IF e.nc = "absent" THEN {"error"}
-               ELSE IF ~e.functab THEN {"error"}                                  \* the whole load fails
+               ELSE IF ~e.functab THEN {"error", "exact"}        \* the whole load fails (an exact answer would mean the table
+                                                                   \* was readable after all; a wrong address is never acceptable)
                ELSE IF e.kind = "func" \/ e.vartab THEN {"exact"} ELSE {"error"}
 Judge(e) == IF Outcome(e) \in ReqFacts(e) THEN "ok" ELSE "V:" \o Outcome(e)
 =============================================================================
